@@ -27,3 +27,16 @@ def float_encoding(case, fail):
     """F9: == compares float areas bit for bit (and points within 1e-9): a float re-encoding of a shape can
     compare unequal to the exact one because the float areas differ in the last bits"""
     return case.get("xn") == "float" or case.get("yn") == "float"
+
+
+@cls("float_xor")
+def float_xor(case, fail):
+    """F17: inexact contact -- float data and an operator whose intermediate operands share boundary points
+    (^ = (A-B)|(B-A), nested expressions)"""
+    def has_xor(e):
+        return e[0] == "^" or any(has_xor(a) for a in e[1:] if isinstance(a, (list, tuple)) and a and a[0] != "var")
+    e = case.get("expr")
+    if case.get("num") != "float" or e is None:
+        return False
+    depth = lambda x: 0 if x[0] == "var" else 1 + max(depth(a) for a in x[1:])
+    return has_xor(e) or depth(e) >= 2
